@@ -47,6 +47,7 @@ REPLAYS = os.path.join(ROOT, "replays")
 KANI_HOME = os.path.expanduser("~/.kani/kani-0.68.0")
 KANI_LIB_C = os.path.join(KANI_HOME, "library/kani/kani_lib.c")
 TRIPLE = "x86_64-unknown-linux-gnu"
+MAX_REPLAYS = 3  # native replays per run that end in a confirmed violation; later counterexamples are listed only
 TOTAL_MEM_GB = int(os.environ.get("VERIF_MEM_GB", "54"))  # of 62; leave room for cargo/rustc and the OS
 NJOBS = int(os.environ.get("VERIF_JOBS", "16"))
 
@@ -750,7 +751,7 @@ def check(pid, plan, tier, only=None, seed=0, evidence=True):
     if prereq_fail is None and build_err is None:
         results = run_all(insts, harnesses, workdir)
     known = load_known()
-    violations, inconclusive, known_hits = [], [], []
+    violations, inconclusive, known_hits, unreplayed = [], [], [], []
     for r in results:
         i = r.inst
         if i.expect == "fail":
@@ -762,6 +763,12 @@ def check(pid, plan, tier, only=None, seed=0, evidence=True):
             elif r.status == "pass":
                 r.status = "inconclusive"
                 r.reason = "reachability witness passed: harness is vacuous"
+        if r.status == "fail" and len(violations) >= MAX_REPLAYS:
+            # enough confirmed violations: further solver counterexamples are listed, not replayed (each replay
+            # costs two native test runs; a change that breaks all 64 squares would otherwise take 40 minutes)
+            r.reason = "solver counterexample, not replayed (%d violations already confirmed natively): %s" % (len(violations), r.reason)
+            unreplayed.append(r)
+            continue
         if r.status == "fail":
             os.makedirs(REPLAYS, exist_ok=True)
             r.replay = replay_native(i, r.values or [], workdir, feature=plan["feature"])
@@ -775,6 +782,13 @@ def check(pid, plan, tier, only=None, seed=0, evidence=True):
                     known_hits.append((r, k))
                 else:
                     violations.append((r, rp))
+                    # report at once: a run that is cut short still shows what was confirmed
+                    log("VIOLATION property=%s replay=%s" % (pid, rp))
+                    log("  harness %s: %s" % (r.inst.name, r.reason))
+                    for prof, v in (r.replay or {}).items():
+                        log("  native %s: %s %s" % (prof, v["verdict"], v["panic"]))
+                        for c in v["cases"][:3]:
+                            log("    CASE " + c)
             else:
                 r.status = "inconclusive"
                 r.reason = "counterexample did not reproduce natively (%s): a stub, reference or assumption is off: %s" % (
@@ -783,13 +797,8 @@ def check(pid, plan, tier, only=None, seed=0, evidence=True):
             inconclusive.append(r)
     for r, k in known_hits:
         log("KNOWN-FINDING: property=%s %s [%s]" % (pid, k["what"], r.inst.name))
-    for r, rp in violations:
-        log("VIOLATION property=%s replay=%s" % (pid, rp))
-        log("  harness %s: %s" % (r.inst.name, r.reason))
-        for prof, v in (r.replay or {}).items():
-            log("  native %s: %s %s" % (prof, v["verdict"], v["panic"]))
-            for c in v["cases"][:3]:
-                log("    CASE " + c)
+    for r in unreplayed:
+        log("UNREPLAYED property=%s harness=%s: %s" % (pid, r.inst.name, r.reason))
     if prereq_fail:
         log("INCONCLUSIVE property=%s prerequisite: %s" % (pid, prereq_fail))
     if build_err:
@@ -848,6 +857,7 @@ def write_evidence(pid, plan, tier, seed, results, violations, inconclusive, kno
             "inconclusive": [{"harness": r.inst.name, "why": r.reason} for r in inconclusive] + (
                 [{"harness": "*", "why": fatal}] if fatal else []),
             "known_findings_hit": [k["what"] for _, k in known_hits],
+            "counterexamples_not_replayed": [r.inst.name for r in results if r.status == "fail" and r.replay is None and not r.known],
             "trusted_base": plan.get("trusted", []),
             "engine": "Kani 0.68.0 (kani-compiler) -> CBMC 6.11.0 --sat-solver cadical",
             "repo_head": git_head(REPO),
